@@ -217,6 +217,7 @@ func runC14(p *P, r *R) {
 	// needs in order to finish: otherwise peer death / Close is not contained — the process-wide dispatcher stalls
 	// (shared with C11 R11.11)
 	borrow(p, r, "C11", runC11, map[string]string{"R11.11": "R14.8", "R11.12": "R14.8", "R11.13": "R14.8"}, nil)
+	c14NoAllocAfterClose(p, r)
 }
 
 func describeEffect(p *P, in ssa.Instruction) string {
@@ -579,5 +580,54 @@ func c14Registries(p *P, r *R, sc *ssa.Function) {
 	r.ob("R14.7", "Session.Close tells the listener (OnShutdown) so that the session leaves the listener's set", p.pos(sc.Pos()), okCb, true, "")
 	if cb := p.fn("(*sessionCallback).OnShutdown"); cb != nil {
 		r.ob("R14.7", "sessionCallback.OnShutdown removes closed sessions from the set", p.pos(cb.Pos()), p.must(cb, p.mCall("(*sessions).removeShutdownSession"), 0), true, "")
+	}
+}
+
+// c14NoAllocAfterClose (R14.9): the teardown unmaps the buffer region once every stream of the session is closed, so a
+// stream's buffer may reach into the shared-memory allocator only while its stream is not closed: every call of the
+// allocator (allocShmBuffer / allocShmBuffers) from a linkedBuffer method is guarded by the stream-closed test.
+// ("Later calls fail ... nothing panics": a write on a stream of a closed session used to read unmapped memory.)
+func c14NoAllocAfterClose(p *P, r *R) {
+	guard := p.mCall("(*linkedBuffer).streamClosed")
+	n := 0
+	for _, f := range p.fnList {
+		if recvNamed(f) != "linkedBuffer" {
+			continue
+		}
+		for _, ci := range findInstrs(f, p.mCall("(*bufferManager).allocShmBuffer", "(*bufferManager).allocShmBuffers")) {
+			n++
+			ok := p.guardedByCall(ci, guard, false)
+			if !ok {
+				// or a direct test of the stream's state
+				isState := func(v ssa.Value) bool {
+					c, okc := v.(*ssa.Call)
+					return okc && p.calleeName(&c.Call) == "(*Stream).getStreamState"
+				}
+				closedV, _ := p.pkgConstInt("streamClosed")
+				isClosed := func(v ssa.Value) bool { k, okk := constInt(v); return okk && k == closedV }
+				for _, fct := range factsAt(ci.Block()) {
+					if relOn(fct.Cond, fct.Truth, isState, isClosed) == "!=" {
+						ok = true
+					}
+				}
+			}
+			r.ob("R14.9", p.fname(f)+": the shared-memory allocator is entered only while the buffer's stream is not closed", p.ipos(ci), ok, true,
+				"after the session's teardown the region is unmapped: an allocation for a closed stream faults the whole process")
+		}
+	}
+	r.count("R14.9", "allocator calls from stream buffers", n, 3)
+	if g := p.fn("(*linkedBuffer).streamClosed"); g != nil {
+		okBody := false
+		for _, ret := range returnsOf(g) {
+			_ = ret
+		}
+		allInstrs(g, func(in ssa.Instruction) {
+			if c, ok := in.(*ssa.Call); ok && p.calleeName(&c.Call) == "(*Stream).getStreamState" {
+				okBody = true
+			}
+		})
+		r.ob("R14.9", "(*linkedBuffer).streamClosed: decides by the stream's state", p.pos(g.Pos()), okBody, true, "")
+	} else {
+		r.fail("R14.9", "anchor (*linkedBuffer).streamClosed", "", "not found")
 	}
 }
